@@ -220,13 +220,37 @@ def print_program(fam, r):
         if F.is_iface(fam, t) and homes[i] == "main" and not any(F.ident(t, U[j]) for j in targets):
             targets.append(i)
     dyn = [i for i, t in enumerate(U) if not F.is_iface(fam, t)]
+    others = [i for i in dyn if not (U[i]["k"] == "named" or (U[i]["k"] == "ptr" and U[i]["e"]["k"] == "named"))]
+    plain = set(others) - set(r.sample(others, min(4, len(others))))
     for i in dyn:
         order = targets[:]
         r.shuffle(order)
-        body.append("\tswitch vals[%d].(type) {" % i)
+        if i in plain:
+            body.append("\tswitch vals[%d].(type) {" % i)
+            for c, j in enumerate(order):
+                body.append("\tcase %s:\n\t\tprintln(\"X switch\", %d)\n\t\tprintln(\"case\", %d)" % (gotype(fam, U[j]), i, c))
+            body.append("\tdefault:\n\t\tprintln(\"X switch\", %d)\n\t\tprintln(\"case\", -1)\n\t}" % i)
+            continue
+        # a BINDING type switch: the clause variable is used for interface comparison with the original value,
+        # re-assertion to the concrete dynamic type and method calls (statements.go binds it with or without `.$val`)
+        t = U[i]
+        sv = "vals[%d]" % i
+        dd = t["d"] if t["k"] == "named" else (t["e"]["d"] if t["k"] == "ptr" and t["e"]["k"] == "named" else None)
+        if dd is not None and not decls[dd].get("local") and decls[dd]["under"]["k"] != "iface":
+            mkn = ("q.Mk" if decls[dd]["pkg"] == F.QPKG else "mk") + decls[dd]["name"]
+            sv = ("*%s(3)" if t["k"] == "named" else "%s(3)") % mkn
+        conc = gotype(fam, t) if homes[i] == "main" else None
+        body.append("\t{\n\tsw := interface{}(%s)\n\tswitch v := sw.(type) {" % sv)
         for c, j in enumerate(order):
-            body.append("\tcase %s:\n\t\tprintln(\"X switch\", %d)\n\t\tprintln(\"case\", %d)" % (gotype(fam, U[j]), i, c))
-        body.append("\tdefault:\n\t\tprintln(\"X switch\", %d)\n\t\tprintln(\"case\", -1)\n\t}" % i)
+            lines = ["\tcase %s:" % gotype(fam, U[j]), "\t\tprintln(\"X switch\", %d)" % i, "\t\tprintln(\"case\", %d)" % c,
+                     "\t\tprintln(\"same\", eqs(v, sw))"]
+            if conc:
+                lines.append("\t\t{\n\t\t\t_, ok := interface{}(v).(%s)\n\t\t\tprintln(\"re\", ok)\n\t\t}" % conc)
+            for m in F.under(fam, U[j])["ms"]:
+                if m["pkg"] != F.QPKG:
+                    lines.append("\t\tguard(func() { %s })" % call_expr("v", m))
+            body.append("\n".join(lines))
+        body.append("\tdefault:\n\t\t_ = v\n\t\tprintln(\"X switch\", %d)\n\t\tprintln(\"case\", -1)\n\t}\n\t}" % i)
     for di, d in enumerate(decls):
         if d.get("local") or d["under"]["k"] == "iface":
             continue
@@ -588,7 +612,7 @@ def forwarder_classes(fam):
 
 def compiled_families(ctx, cur, coq_eval, variants_for, attribute, SIG, WHAT):
     r = ctx.rng("compiled")
-    n = 10 if ctx.quick else 80
+    n = 8 if ctx.quick else 80
     fams = [F.gen_family(r, compiled=True) for _ in range(n)]
     progs = [print_program(fam, r) for fam in fams]
 
@@ -686,6 +710,22 @@ def compiled_families(ctx, cur, coq_eval, variants_for, attribute, SIG, WHAT):
                         return out_
                     recv = norm(jb.get(h)) == norm(gb[h]) or (jb.get(h) or []) == nocopy(gb[h])
                     kind_ = "recvcopy" if recv else False
+                    if not recv and w_[1] == "switch":
+                        # interface comparison of the bound variable: the stale-comparable class (true instead of a panic)
+                        a_, b_ = jb.get(h) or [], gb[h]
+                        if len(a_) == len(b_) and all(x_ == y_ or (y_ == "same panic" and x_.startswith("same ")) for x_, y_ in zip(a_, b_)):
+                            kind_ = "cmpstale"
+                        else:
+                            def decls_in(t_):
+                                if t_["k"] == "named": return [t_["d"]]
+                                if t_["k"] in ("ptr", "slice", "array", "chan"): return decls_in(t_["e"])
+                                if t_["k"] == "struct": return [x_ for f_ in t_["fs"] for x_ in decls_in(f_["t"])]
+                                return []
+                            fl_ = [fwd.get(d_, (False, False)) for d_ in decls_in(fam["univ"][int(w_[2])])]
+                            if any(x_[1] for x_ in fl_) and "panic" in a_:
+                                kind_ = "fwdptr"
+                            elif any(x_[0] for x_ in fl_):
+                                kind_ = "fwdorder"
                     if not recv and w_[1] in ("call", "mval"):
                         fo_, fp_ = fwd.get(int(w_[2]), (False, False))
                         if fp_ and "panic" in (jb.get(h) or []):
